@@ -25,6 +25,7 @@ import Nitime.Generated.FsBindings
 import Nitime.Model.C15Reader
 import Nitime.Model.C15Opts
 import Nitime.Model.C15Obj
+import Nitime.Model.C15Band
 import Nitime.Model.C19
 
 namespace Nitime.C15
@@ -333,6 +334,8 @@ def handle (args : List String) : String :=
   | ["seedrows", n, idx, mem] => Seed.handleSeed .values n idx mem
   -- shiftsrc <n>: which DFT bin every position of the two-sided (complex-input) Fourier spectrum shows
   | ["shiftsrc", n] => Shift.handleShift n
+  -- band <n> <Fs> <lb> <ub|->: which DFT bins 0..n/2 `FilterAnalyzer.filtered_fourier` keeps (Model/C15Band.lean)
+  | ["band", n, fs, lb, ub] => Band.handleBand n fs lb ub
   | _ => "bad-op"
 
 end Nitime.C15
